@@ -19,6 +19,8 @@
 #include <sys/mman.h>
 #include <time.h>
 #include <math.h>
+#include <signal.h>
+#include <execinfo.h>
 #include <vector>
 #include <unordered_map>
 #include <unordered_set>
@@ -530,6 +532,9 @@ void on_range(uintptr_t addr, size_t n, bool write, uintptr_t pc) {
 }  // namespace
 
 // =============================================================================================
+extern "C" void __asan_init(void) __attribute__((weak));
+static bool __asan_init_weak_present() { return __asan_init != nullptr; }
+
 extern "C" {
 
 // ---- instrumentation entry points (sim variant: -fsanitize=thread without the TSan runtime) ----
@@ -783,7 +788,37 @@ void sim_cfg_default(sim_cfg *c) {
   c->detect_races = 1;
 }
 
+// crash reporting for the uninstrumented (sim) variant: print an ASan-style frame list so that the driver can classify
+// the crash by its innermost library frame, then die with the conventional status
+static void crash_handler(int sig) {
+  void *fr[48];
+  int n = backtrace(fr, 48);
+  char line[256];
+  int len = snprintf(line, sizeof line, "\nERROR: SimCrash: signal-%d\n", sig);
+  if (write(2, line, len) < 0) {}
+  for (int i = 0; i < n; i++) {
+    Dl_info di;
+    const char *name = (dladdr(fr[i], &di) && di.dli_sname) ? di.dli_sname : "?";
+    bool lib = di.dli_sname && strncmp(name, "sim_", 4) != 0 && strncmp(name, "_Z", 2) != 0 && strcmp(name, "main") != 0 && strcmp(name, "crash_handler") != 0;
+    len = snprintf(line, sizeof line, "    #%d 0x%lx in %s %s\n", i, (unsigned long)fr[i], name, lib ? "/src/(library)" : "(harness-or-runtime)");
+    if (write(2, line, len) < 0) {}
+  }
+  signal(sig, SIG_DFL);
+  raise(sig);
+}
+static void install_crash_handler() {
+  static bool done = false;
+  if (done || __asan_init_weak_present()) return;
+  done = true;
+  static char altstack[1 << 16];
+  stack_t ss; ss.ss_sp = altstack; ss.ss_size = sizeof altstack; ss.ss_flags = 0;
+  sigaltstack(&ss, nullptr);
+  struct sigaction sa; memset(&sa, 0, sizeof sa); sa.sa_handler = crash_handler; sa.sa_flags = SA_ONSTACK | SA_NODEFER;
+  sigaction(SIGSEGV, &sa, nullptr); sigaction(SIGBUS, &sa, nullptr); sigaction(SIGFPE, &sa, nullptr); sigaction(SIGILL, &sa, nullptr);
+}
+
 void sim_begin_run(const sim_cfg *c) {
+  install_crash_handler();
   SimThread *me = self();
   if (!me->is_main) infra("sim_begin_run off the main thread");
   for (size_t i = 1; i < g_threads.size(); i++) if (g_threads[i]) infra("sim_begin_run with live simulated threads");
@@ -887,7 +922,6 @@ void sim_set_step_limit(uint64_t limit) { g_step_limit = limit; }
 int sim_last_unwind(void) { return g_last_unwind; }
 uint64_t sim_total_steps(void) { return g_total_steps + (g_active ? g_steps : 0); }
 
-void __asan_init(void) __attribute__((weak));
 const char *sim_variant(void) { return __asan_init ? "asan" : "sim"; }
 
 // sanitizer defaults for the asan variant: classify hits by exit code 77, no leak checking
